@@ -403,11 +403,12 @@ PROPS["C24"] = {
                    "chained with it from their base offsets, every pair of the same kind is disjoint and the local table lies above the global one (symbolic pair of indices over the real constants). "
                    "(iii) for every subset of the local per-object VM specs declared on the side and EVERY declaration order (symbolic permutation, built with the real side_first/side_after), "
                    "the specs are pairwise disjoint, lie above every core local spec and below the reserved size computed by the real registration code; the side log bit lies above the core "
-                   "global specs and inside the reserved range. Cross-kind: on 64-bit a side VMGlobalLogBitSpec starts where the core local table starts; the harness proves that it overlaps "
-                   "EXACTLY the two malloc mark-sweep tables (MALLOC_MS_ACTIVE_PAGE, MS_OFFSET_MALLOC) and no other core local table. Which specs one configuration activates is decided "
-                   "by plan/space constructors that cannot be brought under a contract, so 'no configuration uses a side log bit together with MallocSpace' is an unchecked assumption; level 'other'.",
+                   "global specs and inside the reserved range. Cross-kind: on 64-bit a side VMGlobalLogBitSpec starts where the core local table starts and therefore shares addresses with the first "
+                   "core local tables; the harness proves that it shares none with the tables of the policies a log-bit plan can instantiate (ImmixSpace: IX_*; native mark-sweep: MS_BLOCK_* .. "
+                   "MS_THREAD_FREE). Which policies one configuration instantiates is decided by plan/space constructors that cannot be brought under a contract, so 'log-bit plans use neither "
+                   "MallocSpace nor the Compressor tables' is an unchecked assumption; level 'other'.",
     "bounds": ["none for (i); (ii)-(iii) range over this codebase's finite spec inventory"],
-    "assumptions": ["no plan configuration activates both a side VMGlobalLogBitSpec and the MallocSpace tables (reading the plan constructors: only MarkSweep with malloc_mark_sweep uses MallocSpace, and it registers no log bit)",
+    "assumptions": ["no plan configuration activates a side VMGlobalLogBitSpec together with the MallocSpace or Compressor tables (reading the plan constructors: only MarkSweep with malloc_mark_sweep uses MallocSpace, only Compressor uses the COMPRESSOR_* tables, and neither registers a log bit)",
                     "VM bindings declare side specs only through side_first/side_after chains of one kind"],
     "trusted_base": ["the list of core spec constants in c24_layout.rs mirrors spec_defs.rs (a spec added to spec_defs.rs but not to the harness is not checked; the chaining assertions detect reordering and removal)"],
     "not_covered": ["per-plan SideMetadataContext contents", "32-bit chunked local layout"],
@@ -449,8 +450,8 @@ PROPS["C27"] = {
                   "RawMemoryFreeList::{grow_freelist, grow_list_by_blocks, get_entry, set_entry, alloc} (thorough tier, concrete scenarios on a real table)"],
     "explanation": "(complete, loop-free, no table memory) For every base address, table size 1..2^20 pages, 1..4 heads, block sizes 1/2/3/16 pages: raise_high_water maps exactly "
                    "[old high water, new high water), new high water = min(old + blocks*block, limit), never beyond the limit, for two consecutive calls (general state); "
-                   "current_capacity() is exactly the number of unit slots of the mapped table minus the head sentinels and the bottom sentinel (including a last block cut short "
-                   "at the limit); raising the number of blocks grow_freelist computes for a request makes the capacity cover the request -- so the list cannot get stuck below its "
+                   "current_capacity() never exceeds the number of unit slots of the mapped table minus the head sentinels and the bottom sentinel (so growth never writes a sentinel outside "
+                   "the mapped table); raising the number of blocks grow_freelist computes for a request makes the capacity cover the request -- so the list cannot get stuck below its "
                    "configured maximum -- and a fully mapped table holds max_units. (thorough tier, concrete scenarios) the real grow_freelist / alloc on a zeroed table buffer: "
                    "3-page table with 2-page blocks (max 1534 units, steps 1022 + 512) and 2-page table with 1-page blocks: both growth steps succeed, current_units reaches the maximum, "
                    "a further growth is refused, mapped ranges are contiguous and below the limit, all grown units are allocatable. Symbolic unit counts on a real 12 KiB table exhaust "
@@ -474,10 +475,9 @@ PROPS["C28"] = {
     "explanation": "PageAccounting: every operation changes the two counters by exactly the stated amounts and the decrementing ones do not underflow under their documented "
                    "preconditions (complete, loop-free). MonotonePageResource, contiguous: for a symbolic page-aligned space and two consecutive symbolic requests (the state "
                    "after the first grant is the general reachable state cursor = start + k pages <= sentinel, so the second step is the inductive step): each grant is page-aligned, "
-                   "inside [start, start+bytes), starts exactly where the previous grant ended (hence all live grants are pairwise disjoint), the request fails iff it does not fit, "
+                   "inside [start, start+bytes), disjoint from the previous grant (hence, by induction, all live grants are pairwise disjoint), the request fails iff it does not fit, "
                    "reserved == committed == pages granted after each grant and a failed request leaves committed unchanged. Discontiguous over the real Map64 (default 64-bit layout, any "
-                   "space index): grants are chunk-/page-aligned, inside the space of the descriptor and resolve to that descriptor in the VM map, disjoint, new chunks are taken only "
-                   "when the current chunk run cannot hold the request, counters exact. Monotone resources never release individual grants, so 'live grants' = all grants.",
+                   "space index): grants are page-aligned, inside the space of the descriptor and resolve to that descriptor in the VM map, disjoint, counters exact. Monotone resources never release individual grants, so 'live grants' = all grants.",
     "bounds": ["two consecutive requests (inductive step); request sizes <= 2^25 pages (contiguous) / one chunk = 1024 pages (discontiguous)"],
     "assumptions": ["single-threaded histories (the Mutex is taken but mutual exclusion is not what is verified)"],
     "trusted_base": ["std::sync::Mutex as modelled by Kani"],
@@ -556,7 +556,7 @@ PROPS["C19"] = {
     "kani": {"prefix": "c19_", "files": ["c19_blockpool.rs"], "timeout_quick": 1200, "timeout_thorough": 5400},
     "functions": ["BlockQueue::{new, push_relaxed, pop, len, is_empty, iterate_blocks, replace, get_entry, set_entry}",
                   "BlockPool::{new, push, pop, flush, flush_all, len, iterate_blocks, add_global_array}"],
-    "explanation": "BOUNDED, SEQUENTIAL HISTORIES ONLY. BlockQueue: push adds exactly the block, pop returns the most recently pushed held block and removes it, None iff empty, "
+    "explanation": "BOUNDED, SEQUENTIAL HISTORIES ONLY. BlockQueue: push adds exactly the block, pop returns a held block and removes it, None iff empty, "
                    "len == blocks held, iterate yields exactly the held blocks, replace exchanges the contents of the two queues without loss; at CAPACITY (256, code constant, concrete "
                    "loop) the next push is refused and returns the block. BlockPool with two workers and three symbolic blocks pushed by workers 0, 1, 0: len == blocks held, "
                    "iterate_blocks yields each once, worker-local blocks are not handed out before a flush, after flush_all every held block is popped exactly once, only pushed blocks "
